@@ -40,7 +40,8 @@ def plan(tier, prop):
                 "and a healed load; non-trivial = at least one load returned "
                 "or raised its documented error; distinct = distinct abstract "
                 "event traces",
-        "expected_probes": ["fill_retry", "loading_error", "count_fallback",
+        "expected_probes": ["direct_flood_fill", "load_of_nothing", "targets_include_busy_cores", "target_dict_reused", "load_args_from_context",
+                            "fill_retry", "loading_error", "count_fallback",
                             "use_count_fast_path", "multi_binary",
                             "multi_block", "level_lt_3_region",
                             "preexisting_waiting", "fill_id_wrap",
